@@ -245,6 +245,9 @@ func recordCase(sec *vk.Section, c cast, st castStats) {
 	if st.unwrapOverlap > 0 {
 		classes = append(classes, "unwrap-callback-while-other-enc-active")
 	}
+	if c.CronFamily != "" {
+		classes = append(classes, "cron-family.same-expression-different-zones")
+	}
 	seen := map[string]bool{}
 	for _, w := range c.Workers {
 		k := "cast-has." + w.Kind
